@@ -512,4 +512,457 @@ Section NoPanic.
     eapply (add_loop_post _ st before [] pre rv); [lia|exact HB|exact HP].
   Qed.
 
+  (* ---------------------------------------------------------- strip_value ; deduct_fee *)
+  Definition shape_ok (pre post : list (N * N)) : Prop :=
+    (pre = [] /\ (post = [] \/ exists cv, post = [(w_change1 w, cv)] /\ dust (w_change1 w) <= cv)) \/
+    (exists av, pre = [(w_change1 w, av)] /\ dust (w_change1 w) <= av /\
+       (post = [] \/ exists cv, post = [(w_change0 w, cv)] /\ dust (w_change0 w) <= cv)).
+
+  Record Final (st : St) : Prop := {
+    f_nodup : NoDup (s_inputs st);
+    f_wallet : forall x, In x (s_inputs st) -> in_wallet w x;
+    f_max : total_in w (s_inputs st) <= MAX_SUPPLY;
+    f_io : exists before after pre rv post,
+      s_inputs st = before ++ w_out_id w :: after /\ ~ In (w_out_id w) before /\
+      s_outputs st = pre ++ (w_recipient w, rv) :: post /\
+      total_out pre = total_in w before + w_out_off w /\
+      w_out_off w < value_of w (w_out_id w) /\
+      shape_ok pre post /\
+      min_value <= rv /\
+      (rv <= fst (max_and_target w) \/ rv = snd (max_and_target w) \/
+       rv <= snd (max_and_target w) + change_dust w + one_output_fee fee (vbytes st)) /\
+      total_in w (s_inputs st) = total_out (s_outputs st) + fee (vbytes st) }.
+
+  Lemma existsb_recipient : forall pre rv,
+    existsb (fun o : N * N => fst o =? w_recipient w) (pre ++ [(w_recipient w, rv)]) = true.
+  Proof. intros. rewrite existsb_app. cbn [existsb fst]. rewrite N.eqb_refl. apply orb_true_iff. right. reflexivity. Qed.
+
+  Lemma vbytes_outputs : forall st st', s_inputs st' = s_inputs st ->
+    map fst (s_outputs st') = map fst (s_outputs st) -> vbytes st' = vbytes st.
+  Proof. intros st st' Hi Ho. unfold vbytes. rewrite Hi, Ho. reflexivity. Qed.
+
+  Lemma max_target_facts : PreOK -> snd (max_and_target w) <= fst (max_and_target w) /\
+    min_value <= snd (max_and_target w) /\ snd (max_and_target w) <= U64_MAX.
+  Proof.
+    intros HPre. unfold max_and_target, min_value.
+    pose proof (ok_amount fee w OK) as Hamt. unfold target_amount in Hamt.
+    pose proof (dust_recipient_le _ (pc_kind HPre)) as Hd.
+    destruct (w_target w) as [|p|t]; cbn [fst snd]; unfold TB_MAX_POSTAGE, TB_TARGET_POSTAGE.
+    - unfold U64_MAX. lia.
+    - specialize (Hamt p eq_refl). lia.
+    - specialize (Hamt t eq_refl). lia.
+  Qed.
+
+  (* fee of a slightly larger transaction, bounded through the fee that could be paid *)
+  Lemma fee_more : forall vb, 43 <= vb -> fee (vb + TB_ADDITIONAL_OUTPUT_VBYTES) <= 2 * fee vb + 1.
+  Proof.
+    intros vb H. unfold TB_ADDITIONAL_OUTPUT_VBYTES.
+    pose proof (ok_fee_sub fee w OK vb 43). pose proof (ok_fee_mono fee w OK 43 vb H). lia.
+  Qed.
+
+  Lemma vbytes_ge : forall st before after, s_inputs st = before ++ w_out_id w :: after -> 43 <= vbytes st.
+  Proof.
+    intros st before after H. unfold vbytes. apply vsize_ge. rewrite H, app_length. cbn [length]. lia.
+  Qed.
+
+  Lemma strip_deduct_post : forall st before after pre rv,
+    PreOK -> Base st -> Pos st before after pre rv ->
+    (forall o, In o pre -> dust (fst o) <= snd o) ->
+    min_value + fee (vbytes st) <= rv ->
+    post (do s5 <- strip_value fee w st; deduct_fee fee w s5) Final.
+  Proof.
+    intros st before after pre rv HPre HB HP Hpd Hmin.
+    destruct (max_target_facts HPre) as [Htm [Hmt Htu]].
+    destruct (pos_bound st before after pre rv HB HP) as [_ [Hsum Hmax]].
+    pose proof (vbytes_ge st before after (p_inputs _ _ _ _ _ HP)) as Hvb.
+    pose proof (pc_min HPre) as [Hdr [Hm1 _]].
+    assert (Hso : calculate_sat_offset w st = Ok (total_out pre)) by (eapply sat_offset_ok; eassumption).
+    assert (Hsv : sum_values (s_outputs st) 0 = Ok (total_out pre + rv)).
+    { rewrite sum_values_ok; [f_equal; rewrite (p_outputs _ _ _ _ _ HP), total_out_app; unfold total_out; cbn [sum_map snd]; lia|].
+      rewrite (p_outputs _ _ _ _ _ HP), total_out_app. unfold total_out at 2. cbn [sum_map snd]. unfold MAX_SUPPLY, U64_MAX in *. lia. }
+    (* the deduction when nothing was stripped *)
+    assert (HN : forall (Hhi : rv - fee (vbytes st) <= fst (max_and_target w) \/
+                          rv - fee (vbytes st) <= snd (max_and_target w) + change_dust w + one_output_fee fee (vbytes st)),
+               post (deduct_fee fee w st) Final).
+    { intros Hhi. unfold deduct_fee. rewrite Hso. cbn [bind]. rewrite Hsv. cbn [bind].
+      rewrite (p_outputs _ _ _ _ _ HP), last_output_app. unfold estimate_fee.
+      destruct (N.ltb_spec (total_out pre + rv) (fee (vbytes st))); [lia|].
+      destruct (N.ltb_spec (total_out pre) (total_out pre + rv - fee (vbytes st))); [|lia]. cbn [negb].
+      destruct (N.ltb_spec rv (fee (vbytes st))); [lia|].
+      rewrite upd_last_app. unfold sub_amt. destruct (N.leb_spec (fee (vbytes st)) rv); [|lia]. cbn [bind post].
+      set (st6 := mkSt (s_utxos st) (s_inputs st) (pre ++ [(w_recipient w, rv - fee (vbytes st))]) (s_unused st)).
+      assert (Hvb6 : vbytes st6 = vbytes st).
+      { apply vbytes_outputs; [reflexivity|]. cbn [st6 s_outputs]. rewrite (p_outputs _ _ _ _ _ HP), !map_app. reflexivity. }
+      constructor; cbn [st6 s_inputs s_outputs]; fold st6.
+      - exact (proj1 (b_inv st HB)).
+      - exact (b_in st HB).
+      - exact (total_in_le st HB).
+      - exists before, after, pre, (rv - fee (vbytes st)), [].
+        split; [exact (p_inputs _ _ _ _ _ HP)|]. split; [exact (p_before _ _ _ _ _ HP)|].
+        split; [reflexivity|]. split; [exact (p_pre _ _ _ _ _ HP)|]. split; [exact (p_off _ _ _ _ _ HP)|].
+        split.
+        { destruct (p_shape _ _ _ _ _ HP) as [[Hp _]|[av [Hp _]]].
+          - left. split; [exact Hp|left; reflexivity].
+          - right. exists av. split; [exact Hp|]. split; [|left; reflexivity].
+            apply (Hpd (w_change1 w, av)). rewrite Hp. left. reflexivity. }
+        split; [lia|]. split.
+        { rewrite Hvb6. destruct Hhi as [Hhi|Hhi]; [left; exact Hhi|right; right; exact Hhi]. }
+        rewrite Hvb6, total_out_app. unfold total_out at 2. cbn [sum_map snd]. lia. }
+    unfold strip_value. rewrite Hso. cbn [bind]. rewrite Hsv. cbn [bind].
+    rewrite (p_outputs _ _ _ _ _ HP) at 1. rewrite existsb_recipient. cbn [negb].
+    unfold sub_amt. destruct (N.leb_spec (total_out pre) (total_out pre + rv)); [|lia]. cbn [bind].
+    replace (total_out pre + rv - total_out pre) with rv by lia.
+    destruct (N.ltb_spec rv (fee (vbytes st))); [lia|].
+    destruct (max_and_target w) as [mx tg] eqn:Hmt'. cbn [fst snd] in *.
+    destruct (N.leb_spec (rv - fee (vbytes st)) mx) as [Hex|Hex].
+    { cbn [bind]. apply HN. left. exact Hex. }
+    destruct (N.ltb_spec rv tg); [lia|].
+    assert (Hc : exists c un, s_unused st = c :: un /\ is_address c = true /\
+                 (c = w_change0 w \/ c = w_change1 w) /\
+                 ((pre = [] /\ c = w_change1 w) \/ (exists av, pre = [(w_change1 w, av)] /\ c = w_change0 w))).
+    { destruct (p_shape _ _ _ _ _ HP) as [[Hp Hu]|[av [Hp Hu]]].
+      - exists (w_change1 w), [w_change0 w]. split; [exact Hu|]. split; [exact (ok_change1 fee w OK)|]. split; [right; reflexivity|left; split; [exact Hp|reflexivity]].
+      - exists (w_change0 w), []. split; [exact Hu|]. split; [exact (ok_change0 fee w OK)|]. split; [left; reflexivity|right; exists av; split; [exact Hp|reflexivity]]. }
+    destruct Hc as [c [un [Hun [Hca [Hcc Hcs]]]]]. rewrite Hun.
+    destruct (address_facts c Hca) as [Hd1 [Hd2 [Hts _]]].
+    pose proof (fee_more (vbytes st) Hvb) as Hfm.
+    unfold add_amt. destruct (N.leb_spec (dust c + fee (vbytes st + TB_ADDITIONAL_OUTPUT_VBYTES)) U64_MAX) as [_|Hbad];
+      [|unfold MAX_SUPPLY, U64_MAX in *; lia].
+    cbn [bind].
+    assert (Hcd : dust c <= change_dust w). { unfold change_dust. destruct Hcc; subst c; lia. }
+    destruct (N.leb_spec (rv - tg) (dust c + fee (vbytes st + TB_ADDITIONAL_OUTPUT_VBYTES))) as [Hns|Hs].
+    { cbn [bind]. apply HN. right. unfold one_output_fee.
+      pose proof (ok_fee_mono fee w OK (vbytes st) (vbytes st + TB_ADDITIONAL_OUTPUT_VBYTES)). lia. }
+    (* stripped: the recipient gets the target, a change output takes the rest and pays the fee *)
+    rewrite (p_outputs _ _ _ _ _ HP), upd_last_app. cbn [bind].
+    set (st5 := mkSt (s_utxos st) (s_inputs st) ((pre ++ [(w_recipient w, tg)]) ++ [(c, rv - tg)]) un).
+    unfold deduct_fee.
+    assert (Hso5 : calculate_sat_offset w st5 = Ok (total_out pre)) by exact Hso.
+    rewrite Hso5. cbn [bind].
+    assert (Hsv5 : sum_values (s_outputs st5) 0 = Ok (total_out pre + rv)).
+    { rewrite sum_values_ok; cbn [st5 s_outputs]; rewrite !total_out_app; unfold total_out at 2 3; cbn [sum_map snd];
+        [f_equal; lia|unfold MAX_SUPPLY, U64_MAX in *; lia]. }
+    rewrite Hsv5. cbn [bind]. cbn [st5 s_outputs]. rewrite last_output_app. fold st5.
+    assert (Hvb5 : vbytes st5 = vbytes st + txout_size c).
+    { unfold vbytes. cbn [st5 s_inputs s_outputs]. rewrite map_app. cbn [map fst].
+      rewrite vsize_add_output.
+      - f_equal. rewrite (p_outputs _ _ _ _ _ HP), !map_app. reflexivity.
+      - rewrite map_length, app_length. cbn [length].
+        destruct (p_shape _ _ _ _ _ HP) as [[Hp _]|[av [Hp _]]]; rewrite Hp; cbn [length]; lia. }
+    unfold estimate_fee. rewrite Hvb5.
+    pose proof (ok_fee_mono fee w OK (vbytes st + txout_size c) (vbytes st + TB_ADDITIONAL_OUTPUT_VBYTES)) as Hf5.
+    unfold TB_ADDITIONAL_OUTPUT_VBYTES in Hf5 at 1. specialize (Hf5 ltac:(lia)).
+    set (f5 := fee (vbytes st + txout_size c)) in *.
+    destruct (N.ltb_spec (total_out pre + rv) f5); [lia|].
+    destruct (N.ltb_spec (total_out pre) (total_out pre + rv - f5)); [|lia]. cbn [negb].
+    destruct (N.ltb_spec (rv - tg) f5); [lia|].
+    rewrite upd_last_app. unfold sub_amt. destruct (N.leb_spec f5 (rv - tg)); [|lia]. cbn [bind post].
+    set (st6 := mkSt (s_utxos st5) (s_inputs st5) ((pre ++ [(w_recipient w, tg)]) ++ [(c, rv - tg - f5)]) (s_unused st5)).
+    assert (Hvb6 : vbytes st6 = vbytes st + txout_size c).
+    { rewrite <- Hvb5. apply vbytes_outputs; [reflexivity|]. cbn [st6 st5 s_outputs]. rewrite !map_app. reflexivity. }
+    constructor; cbn [st6 st5 s_inputs s_outputs]; fold st5; fold st6.
+    - exact (proj1 (b_inv st HB)).
+    - exact (b_in st HB).
+    - exact (total_in_le st HB).
+    - exists before, after, pre, tg, [(c, rv - tg - f5)].
+      split; [exact (p_inputs _ _ _ _ _ HP)|]. split; [exact (p_before _ _ _ _ _ HP)|].
+      split; [rewrite <- app_assoc; reflexivity|]. split; [exact (p_pre _ _ _ _ _ HP)|]. split; [exact (p_off _ _ _ _ _ HP)|].
+      split.
+      { destruct Hcs as [[Hp Hc1]|[av [Hp Hc0]]].
+        - left. split; [exact Hp|]. right. exists (rv - tg - f5). subst c. split; [reflexivity|lia].
+        - right. exists av. split; [exact Hp|]. split; [apply (Hpd (w_change1 w, av)); rewrite Hp; left; reflexivity|].
+          right. exists (rv - tg - f5). subst c. split; [reflexivity|lia]. }
+      split; [lia|]. split; [right; left; rewrite Hmt'; reflexivity|].
+      rewrite Hvb6. fold f5. rewrite !total_out_app. unfold total_out at 2 3. cbn [sum_map snd]. lia.
+  Qed.
+
+  (* ---------------------------------------------------------- build *)
+  Lemma add_u64_small : forall a b, a + b <= U64_MAX -> add_u64 a b = Ok (a + b).
+  Proof. intros a b H. unfold add_u64. destruct (N.leb_spec (a + b) U64_MAX); [reflexivity|lia]. Qed.
+  Lemma add_amt_small : forall a b, a + b <= U64_MAX -> add_amt a b = Ok (a + b).
+  Proof. intros a b H. unfold add_amt. destruct (N.leb_spec (a + b) U64_MAX); [reflexivity|lia]. Qed.
+
+  Lemma count_none : forall (am : list (N * N)) (p : N * N -> bool) id,
+    (forall e, p e = true -> fst e = id) -> ~ In id (map fst am) -> count p am = 0%nat.
+  Proof.
+    intros am p id Hp. induction am as [|e r IH]; intros Hn; [reflexivity|].
+    rewrite count_cons. destruct (p e) eqn:He.
+    - exfalso. apply Hn. left. exact (Hp e He).
+    - apply IH. intro Hx. apply Hn. right. exact Hx.
+  Qed.
+
+  Lemma count_contained : forall am A,
+    NoDup (map fst am) -> amount_of am (w_out_id w) = Some A -> w_out_off w < A ->
+    count (fun e : N * N => (fst e =? w_out_id w) && (w_out_off w <? snd e)) am = 1%nat.
+  Proof.
+    induction am as [|[i x] r IH]; intros A Hnd Ha Hoff; cbn [amount_of] in Ha; [discriminate|].
+    inversion Hnd as [|? ? Hni Hnd']. subst. rewrite count_cons. cbn [fst snd].
+    destruct (N.eqb_spec i (w_out_id w)) as [He|Hne].
+    - inversion Ha. subst x i. destruct (N.ltb_spec (w_out_off w) A); [|lia]. cbn [andb]. f_equal.
+      apply (count_none r _ (w_out_id w)); [|exact Hni].
+      intros e He. apply andb_true_iff in He. apply N.eqb_eq. exact (proj1 He).
+    - cbn [andb]. eapply IH; eassumption.
+  Qed.
+
+  Lemma count_app : forall A (p : A -> bool) l1 l2, count p (l1 ++ l2) = (count p l1 + count p l2)%nat.
+  Proof. intros. unfold count. rewrite filter_app, app_length. reflexivity. Qed.
+
+  Lemma count_notin : forall l x, ~ In x l -> count (fun i => i =? x) l = 0%nat.
+  Proof.
+    induction l as [|y l IH]; intros x Hn; [reflexivity|]. rewrite count_cons.
+    destruct (N.eqb_spec y x); [exfalso; apply Hn; left; assumption|]. apply IH. intro; apply Hn; right; assumption.
+  Qed.
+
+  Lemma b_sat_offset_spec : forall before after acc,
+    ~ In (w_out_id w) before -> (forall x, In x before -> in_wallet w x) ->
+    acc + total_in w before + w_out_off w <= U64_MAX ->
+    b_sat_offset w (before ++ w_out_id w :: after) acc = Ok (Some (acc + total_in w before + w_out_off w)).
+  Proof.
+    induction before as [|i r IH]; intros after acc Hn Hw Hb; cbn [app b_sat_offset].
+    - rewrite N.eqb_refl. unfold total_in in *. cbn [sum_map] in *. rewrite add_u64_small by lia. cbn [bind]. do 2 f_equal. lia.
+    - destruct (N.eqb_spec i (w_out_id w)) as [He|Hne]; [exfalso; apply Hn; left; exact He|].
+      destruct (value_of_wallet i (Hw i (or_introl eq_refl))) as [v [Ha [Hv Hp]]]. rewrite Ha.
+      unfold total_in in *. cbn [sum_map] in Hb. rewrite Hv in Hb.
+      rewrite add_u64_small by lia. cbn [bind]. rewrite IH.
+      + do 2 f_equal. cbn [sum_map]. rewrite Hv. lia.
+      + intro Hx. apply Hn. right. exact Hx.
+      + intros x Hx. apply Hw. right. exact Hx.
+      + lia.
+  Qed.
+
+  Lemma b_find_output_ok : forall pre rv post e so,
+    e + total_out pre = so -> 0 < rv -> so + rv <= U64_MAX ->
+    b_find_output w (pre ++ (w_recipient w, rv) :: post) e so = Ok true.
+  Proof.
+    induction pre as [|[s v] r IH]; intros rv post e so He Hrv Hb; cbn [app b_find_output];
+      unfold total_out in He; cbn [sum_map snd] in He.
+    - rewrite add_u64_small by lia. cbn [bind]. destruct (N.ltb_spec so (e + rv)); [|lia]. rewrite N.eqb_refl. reflexivity.
+    - rewrite add_u64_small by lia. cbn [bind]. destruct (N.ltb_spec so (e + v)); [lia|].
+      apply IH; [unfold total_out; lia|exact Hrv|exact Hb].
+  Qed.
+
+  Definition is_changeb (s : N) : bool := (s =? w_change0 w) || (s =? w_change1 w).
+
+  Lemma b_outputs_tail : forall vb tl offset so,
+    (forall o, In o tl -> (fst o =? w_recipient w) = false /\ is_changeb (fst o) = true) ->
+    offset + total_out tl <= U64_MAX ->
+    b_outputs fee w vb tl offset so = Ok tt.
+  Proof.
+    intros vb tl; induction tl as [|[s v] r IH]; intros offset so Hc Hb; cbn [b_outputs]; [reflexivity|].
+    destruct (Hc (s, v) (or_introl eq_refl)) as [H1 H2]. cbn [fst] in H1, H2. rewrite H1.
+    unfold is_changeb in H2. rewrite H2. cbn [bind].
+    unfold total_out in Hb. cbn [sum_map snd] in Hb.
+    rewrite add_u64_small by lia. cbn [bind]. apply IH; [intros o Ho; apply Hc; right; exact Ho|unfold total_out; lia].
+  Qed.
+
+  Lemma b_outputs_full : forall vb pre rv post offset so,
+    (forall o, In o (pre ++ post) -> (fst o =? w_recipient w) = false /\ is_changeb (fst o) = true) ->
+    offset + total_out pre = so ->
+    b_check_recipient fee w vb rv = Ok tt ->
+    offset + total_out pre + rv + total_out post <= U64_MAX ->
+    b_outputs fee w vb (pre ++ (w_recipient w, rv) :: post) offset so = Ok tt.
+  Proof.
+    induction pre as [|[s v] r IH]; intros rv post offset so Hc Ho Hchk Hb; cbn [app b_outputs];
+      unfold total_out in Ho, Hb; cbn [sum_map snd] in Ho, Hb.
+    - rewrite N.eqb_refl, Hchk. cbn [bind]. destruct (N.eqb_spec offset so); [|lia]. cbn [bind].
+      rewrite add_u64_small by lia. cbn [bind]. apply b_outputs_tail; [exact Hc|unfold total_out; lia].
+    - destruct (Hc (s, v) (or_introl eq_refl)) as [H1 H2]. cbn [fst] in H1, H2. rewrite H1.
+      unfold is_changeb in H2. rewrite H2. cbn [bind].
+      rewrite add_u64_small by lia. cbn [bind].
+      apply IH; [intros o Hin; apply Hc; right; exact Hin|unfold total_out; lia|exact Hchk|unfold total_out; lia].
+  Qed.
+
+  Lemma b_add_inputs_spec : forall inputs acc,
+    (forall x, In x inputs -> in_wallet w x) -> acc + total_in w inputs <= U64_MAX ->
+    b_add_inputs w inputs acc = Ok (acc + total_in w inputs).
+  Proof.
+    induction inputs as [|i r IH]; intros acc Hw Hb; cbn [b_add_inputs]; unfold total_in in *; cbn [sum_map] in *.
+    - f_equal. lia.
+    - destruct (value_of_wallet i (Hw i (or_introl eq_refl))) as [v [Ha [Hv Hp]]]. rewrite Ha. rewrite Hv in Hb.
+      rewrite add_amt_small by lia. cbn [bind]. rewrite IH; [f_equal; rewrite Hv; lia|intros x Hx; apply Hw; right; exact Hx|lia].
+  Qed.
+
+  Lemma b_sub_outputs_spec : forall outs acc, total_out outs <= acc ->
+    b_sub_outputs outs acc = Ok (acc - total_out outs).
+  Proof.
+    induction outs as [|[s v] r IH]; intros acc H; cbn [b_sub_outputs]; unfold total_out in *; cbn [sum_map snd] in *.
+    - f_equal. lia.
+    - unfold sub_amt. destruct (N.leb_spec v acc); [|lia]. cbn [bind]. rewrite IH; [f_equal; lia|lia].
+  Qed.
+
+  Lemma check_recipient_ok : forall vb rv, PreOK -> 43 <= vb -> fee vb <= MAX_SUPPLY -> rv <= MAX_SUPPLY ->
+    min_value <= rv ->
+    (rv <= fst (max_and_target w) \/ rv = snd (max_and_target w) \/
+     rv <= snd (max_and_target w) + change_dust w + one_output_fee fee vb) ->
+    b_check_recipient fee w vb rv = Ok tt.
+  Proof.
+    intros vb rv HPre Hvb Hfee Hrv Hlo Hhi. unfold b_check_recipient.
+    pose proof (ok_fee_mono fee w OK vb (vb + TB_ADDITIONAL_OUTPUT_VBYTES) ltac:(lia)) as Hm.
+    destruct (N.ltb_spec (fee (vb + TB_ADDITIONAL_OUTPUT_VBYTES)) (fee vb)); [lia|].
+    pose proof (fee_more vb Hvb) as Hfm.
+    destruct (address_facts _ (ok_change0 fee w OK)) as [_ [Hd0 _]].
+    destruct (address_facts _ (ok_change1 fee w OK)) as [_ [Hd1 _]].
+    unfold one_output_fee, change_dust in Hhi. unfold max_change_dust.
+    unfold max_and_target, min_value in *.
+    destruct (w_target w) as [|p|t]; cbn [fst snd] in Hhi; unfold TB_MAX_POSTAGE, TB_TARGET_POSTAGE in *.
+    - rewrite add_amt_small by (unfold MAX_SUPPLY, U64_MAX in *; lia). cbn [bind].
+      match goal with |- (if ?c then _ else _) = _ => destruct c eqn:Hc; [reflexivity|] end.
+      apply N.leb_gt in Hc. lia.
+    - rewrite add_amt_small by (unfold MAX_SUPPLY, U64_MAX in *; lia). cbn [bind].
+      rewrite add_amt_small by (unfold MAX_SUPPLY, U64_MAX in *; lia). cbn [bind].
+      match goal with |- (if ?c then _ else _) = _ => destruct c eqn:Hc; [reflexivity|] end.
+      apply N.leb_gt in Hc. lia.
+    - destruct (N.ltb_spec rv t); [lia|].
+      rewrite add_amt_small by (unfold MAX_SUPPLY, U64_MAX in *; lia). cbn [bind].
+      match goal with |- (if ?c then _ else _) = _ => destruct c eqn:Hc; [reflexivity|] end.
+      apply N.leb_gt in Hc. lia.
+  Qed.
+
+  Lemma count_zero : forall A (p : A -> bool) l, (forall x, In x l -> p x = false) -> count p l = 0%nat.
+  Proof.
+    intros A p l. induction l as [|x l IH]; intros H; [reflexivity|]. rewrite count_cons, (H x (or_introl eq_refl)).
+    apply IH. intros y Hy. apply H. right. exact Hy.
+  Qed.
+
+  Lemma build_total : forall st, PreOK -> Final st -> exists tx, build fee w st = Ok tx.
+  Proof.
+    intros st HPre [Hnd Hw Hmax [before [after [pre [rv [tl [Hin [Hnb [Hout [Hpre [Hoff [Hshape [Hlo [Hhi Hfee]]]]]]]]]]]]]].
+    pose proof (pc_min HPre) as [Hdr [Hm1 _]].
+    pose proof (vbytes_ge st before after Hin) as Hvb.
+    destruct (address_facts _ (ok_change0 fee w OK)) as [_ [Hd0 _]].
+    destruct (address_facts _ (ok_change1 fee w OK)) as [_ [Hd1 _]].
+    assert (Er0 : (w_change0 w =? w_recipient w) = false) by (apply N.eqb_neq; intro E; apply (pc_r0 HPre); congruence).
+    assert (Er1 : (w_change1 w =? w_recipient w) = false) by (apply N.eqb_neq; intro E; apply (pc_r1 HPre); congruence).
+    assert (E01 : (w_change0 w =? w_change1 w) = false) by (apply N.eqb_neq; exact (pc_c HPre)).
+    assert (E10 : (w_change1 w =? w_change0 w) = false) by (apply N.eqb_neq; intro E; apply (pc_c HPre); congruence).
+    assert (Erc0 : (w_recipient w =? w_change0 w) = false) by (apply N.eqb_neq; exact (pc_r0 HPre)).
+    assert (Erc1 : (w_recipient w =? w_change1 w) = false) by (apply N.eqb_neq; exact (pc_r1 HPre)).
+    assert (Htot : total_out (s_outputs st) = total_out pre + rv + total_out tl).
+    { rewrite Hout, total_out_app. unfold total_out. cbn [sum_map snd]. lia. }
+    assert (Hoin : in_wallet w (w_out_id w)).
+    { apply Hw. rewrite Hin. apply in_or_app. right. left. reflexivity. }
+    destruct (value_of_wallet _ Hoin) as [A [HA [HvA HpA]]].
+    assert (Hscripts : forall o, In o (pre ++ tl) -> (fst o =? w_recipient w) = false /\ is_changeb (fst o) = true).
+    { intros o Ho. unfold is_changeb.
+      destruct Hshape as [[Hp Ht]|[av [Hp [_ Ht]]]]; subst pre; cbn [app] in Ho.
+      - destruct Ht as [Ht|[cv [Ht _]]]; subst tl; [destruct Ho|]. destruct Ho as [Ho|[]]. subst o. cbn [fst].
+        rewrite Er1, N.eqb_refl, orb_true_r. split; reflexivity.
+      - destruct Ho as [Ho|Ho]; [subst o; cbn [fst]; rewrite Er1, N.eqb_refl, orb_true_r; split; reflexivity|].
+        destruct Ht as [Ht|[cv [Ht _]]]; subst tl; [destruct Ho|]. destruct Ho as [Ho|[]]. subst o. cbn [fst].
+        rewrite Er0, N.eqb_refl. split; reflexivity. }
+    unfold build. cbv zeta. eexists.
+    (* 1: the outgoing sat is contained in the wallet's outputs *)
+    rewrite (count_contained (w_amounts w) A (ok_nodup fee w OK) HA) by (rewrite <- HvA; exact Hoff).
+    cbn [Nat.eqb negb].
+    (* 2: the outgoing outpoint is spent exactly once *)
+    assert (Hc2 : count (fun i => i =? w_out_id w) (s_inputs st) = 1%nat).
+    { rewrite Hin in *. rewrite count_app, count_cons, N.eqb_refl.
+      apply NoDup_remove_2 in Hnd. rewrite (count_notin before) by exact Hnb.
+      rewrite (count_notin after); [reflexivity|]. intro Hx. apply Hnd. apply in_or_app. right. exact Hx. }
+    rewrite Hc2. cbn [Nat.eqb negb].
+    (* 3: its position among the inputs *)
+    assert (Hbound : total_in w before + value_of w (w_out_id w) + total_in w after <= MAX_SUPPLY).
+    { rewrite Hin, total_in_app in Hmax. unfold total_in at 2 in Hmax. cbn [sum_map] in Hmax. fold (total_in w after) in Hmax. lia. }
+    rewrite Hin at 1. rewrite b_sat_offset_spec;
+      [|exact Hnb|intros x Hx; apply Hw; rewrite Hin; apply in_or_app; left; exact Hx|unfold MAX_SUPPLY, U64_MAX in *; lia].
+    cbn [bind].
+    assert (Hle : total_out pre + rv + total_out tl <= MAX_SUPPLY) by lia.
+    (* 4: the output holding it *)
+    rewrite Hout at 1. rewrite b_find_output_ok; [|lia|lia|unfold MAX_SUPPLY, U64_MAX in *; lia].
+    cbn [bind negb].
+    (* 5: recipient once, change addresses at most once *)
+    assert (Hc5 : count (fun o : N * N => fst o =? w_recipient w) (s_outputs st) = 1%nat).
+    { rewrite Hout, count_app, count_cons. cbn [fst]. rewrite N.eqb_refl.
+      rewrite (count_zero _ _ pre), (count_zero _ _ tl); [reflexivity| |];
+        intros x Hx; apply Hscripts; apply in_or_app; [right|left]; exact Hx. }
+    rewrite Hc5. cbn [Nat.eqb negb].
+    assert (Hc6 : (Nat.leb (count (fun o : N * N => fst o =? w_change0 w) (s_outputs st)) 1 &&
+                   Nat.leb (count (fun o : N * N => fst o =? w_change1 w) (s_outputs st)) 1)%bool = true).
+    { rewrite Hout.
+      destruct Hshape as [[Hp Ht]|[av [Hp [_ Ht]]]]; subst pre; cbn [app];
+        (destruct Ht as [Ht|[cv [Ht _]]]; subst tl);
+        repeat (rewrite count_cons; cbn [fst]); rewrite ?Erc0, ?Erc1, ?E01, ?E10, ?N.eqb_refl; reflexivity. }
+    rewrite Hc6. cbn [negb].
+    (* 6: per-output checks *)
+    rewrite Hout at 1. rewrite b_outputs_full;
+      [|exact Hscripts|lia| |unfold MAX_SUPPLY, U64_MAX in *; lia].
+    2:{ apply check_recipient_ok; try assumption; lia. }
+    cbn [bind].
+    (* 7: the fee *)
+    rewrite b_add_inputs_spec by (try exact Hw; unfold MAX_SUPPLY, U64_MAX in *; lia). cbn [bind].
+    rewrite b_sub_outputs_spec by lia. cbn [bind].
+    replace (0 + total_in w (s_inputs st) - total_out (s_outputs st)) with (fee (vbytes st)) by lia.
+    fold (vbytes st). rewrite N.eqb_refl. cbn [negb].
+    (* 8: dust *)
+    assert (Hc8 : forallb (fun o : N * N => dust (fst o) <=? snd o) (s_outputs st) = true).
+    { rewrite Hout. apply forallb_forall. intros o Ho. apply N.leb_le.
+      apply in_app_or in Ho.
+      destruct Ho as [Ho|[Ho|Ho]].
+      - destruct Hshape as [[Hp _]|[av [Hp [Hdv _]]]]; subst pre; [destruct Ho|].
+        destruct Ho as [Ho|[]]. subst o. exact Hdv.
+      - subst o. cbn [fst snd]. lia.
+      - destruct Hshape as [[_ Ht]|[av [_ [_ Ht]]]]; (destruct Ht as [Ht|[cv [Ht Hdv]]]; subst tl; [destruct Ho|]);
+          (destruct Ho as [Ho|[]]; subst o; exact Hdv). }
+    rewrite Hc8. cbn [negb]. reflexivity.
+  Qed.
+
+  (* ---------------------------------------------------------- build_transaction *)
+  Theorem build_transaction_never_panics : forall t, build_transaction fee w <> Panic t.
+  Proof.
+    intros t H. unfold build_transaction, passes in H.
+    assert (Hpost : post (do s <- (do _ <- precheck w;
+                                  do s1 <- select_outgoing w (initial_state w);
+                                  do s2 <- align_outgoing w s1;
+                                  do s3 <- pad_alignment_output w s2;
+                                  do s4 <- add_value fee w s3;
+                                  do s5 <- strip_value fee w s4; deduct_fee fee w s5); build fee w s)
+                          (fun _ => True)).
+    { assert (Hinner : post (do _ <- precheck w;
+                             do s1 <- select_outgoing w (initial_state w);
+                             do s2 <- align_outgoing w s1;
+                             do s3 <- pad_alignment_output w s2;
+                             do s4 <- add_value fee w s3;
+                             do s5 <- strip_value fee w s4; deduct_fee fee w s5)
+                            (fun s => PreOK /\ Final s)).
+      { eapply post_bind; [exact precheck_post|]. intros [] HPre.
+        eapply post_bind; [exact select_outgoing_post|]. intros s1 [HB1 [Hi1 [Ho1 [Hu1 Hoff1]]]].
+        eapply post_bind; [exact (align_post s1 HB1 Hi1 Ho1 Hu1 Hoff1)|]. intros s2 [HB2 [pre [rv HP2]]].
+        eapply post_bind; [exact (pad_post s2 pre rv HPre HB2 HP2)|]. intros s3 [HB3 [before [pre' [HP3 Hd3]]]].
+        eapply post_bind; [exact (add_value_post s3 before pre' rv HB3 HP3)|]. intros s4 [HB4 [after [rv' [HP4 Hmin]]]].
+        eapply post_weaken; [exact (strip_deduct_post s4 before after pre' rv' HPre HB4 HP4 Hd3 Hmin)|].
+        intros s HF. split; assumption. }
+      eapply post_bind; [exact Hinner|]. intros s [HPre HF].
+      destruct (build_total s HPre HF) as [tx Htx]. rewrite Htx. exact I. }
+    rewrite H in Hpost. exact Hpost.
+  Qed.
+
 End NoPanic.
+
+(* every dyadic fee rate k/2^j (the rates the correspondence runs with) satisfies the fee laws *)
+Lemma fee_dyadic_laws : forall k j,
+  (forall a b, a <= b -> fee_dyadic k j a <= fee_dyadic k j b) /\
+  (forall a b, fee_dyadic k j (a + b) <= fee_dyadic k j a + fee_dyadic k j b + 1) /\
+  (forall a, fee_dyadic k j a <= U64_MAX).
+Proof.
+  intros k j. unfold fee_dyadic.
+  assert (HP : 0 < 2 ^ j) by (apply N.neq_0_lt_0; apply N.pow_nonzero; lia).
+  assert (E : 2 ^ (j + 1) = 2 * 2 ^ j) by (rewrite N.pow_add_r; lia).
+  rewrite E. set (P := 2 ^ j) in *. clearbody P.
+  assert (Hdiv : forall x, (x / (2 * P)) * (2 * P) <= x /\ x < (x / (2 * P) + 1) * (2 * P)).
+  { intros x. pose proof (N.div_mod x (2 * P) ltac:(lia)) as Hd. pose proof (N.mod_lt x (2 * P) ltac:(lia)) as Hm.
+    revert Hd Hm. generalize (x / (2 * P)) (x mod (2 * P)). intros q r Hd Hm. subst x. split; nia. }
+  split; [|split].
+  - intros a b Hab.
+    assert ((2 * k * a + P) / (2 * P) <= (2 * k * b + P) / (2 * P)). { apply N.div_le_mono; nia. }
+    apply N.min_le_compat_l. assumption.
+  - intros a b.
+    pose proof (Hdiv (2 * k * (a + b) + P)) as [H1 H2].
+    pose proof (Hdiv (2 * k * a + P)) as [H3 H4].
+    pose proof (Hdiv (2 * k * b + P)) as [H5 H6].
+    assert (H : (2 * k * (a + b) + P) / (2 * P) <= (2 * k * a + P) / (2 * P) + (2 * k * b + P) / (2 * P) + 1) by nia.
+    revert H. generalize ((2 * k * (a + b) + P) / (2 * P)) ((2 * k * a + P) / (2 * P)) ((2 * k * b + P) / (2 * P)).
+    intros x y z H.
+    destruct (N.min_spec U64_MAX x) as [[? ->]|[? ->]], (N.min_spec U64_MAX y) as [[? ->]|[? ->]],
+             (N.min_spec U64_MAX z) as [[? ->]|[? ->]]; lia.
+  - intros a. apply N.le_min_l.
+Qed.
